@@ -140,6 +140,21 @@ pub mod buf {
         { unimplemented!() }
     }
 
+    // Representation invariant pos <= MAX_SIZE: established by Default (pos = MAX_SIZE) and preserved by every method
+    // (each Kani harness in contracts/kani/buffer.rs re-establishes it from an arbitrary state satisfying it); the
+    // fields are private, so it holds for every Buffer value a Verus unit can see.
+    pub broadcast proof fn axiom_buffer_wf(b: &Buffer)
+        ensures #[trigger] b.view().len() <= MAX_SIZE
+    { admit(); }
+    pub broadcast group group_buffer_axioms {
+        axiom_buffer_wf,
+    }
+
+    impl Default for Buffer {
+        #[verifier::external_body]
+        fn default() -> Buffer { unimplemented!() }
+    }
+
     // impl Default for Buffer: empty, bookmark 0 (i.e. MAX_SIZE from the end)
     #[verifier::external_body]
     pub fn buffer_default() -> (r: Buffer)
